@@ -5,7 +5,7 @@ from flow import Taint, Tracker, backward, callee_matches, field_reads, op_local
 from rules import CallGuard, CallSink, CmpGuard, RetSink, AggSink, compare_sites
 from rules import PL
 from props.C03 import PV, PUT, param_seeds
-from props.C04 import call_results, agg_field_operands, TRK
+from props.C04 import call_results, agg_field_operands, TRK, per_element_key_check
 
 META = {
     "explanation": "Decides: (1) in validate_and_store_scratchpad_record the store is cut by content-derived key == presented key, by "
@@ -82,53 +82,28 @@ def run(R):
     tx = R.body("C07.tx", PV + "validate_merge_and_store_transactions::{closure#0}")
     if tx is not None:
         prep(tx)
-        closures = [c for c in F.item(PV + "validate_merge_and_store_transactions") if c.kind == "closure" and c.parent == tx.path]
-        verify_cl = [c for c in closures if any(x["ncallee"] == TX + "::verify" for x in c.calls)]
-        key_cl = [c for c in closures if any(x["ncallee"] == TRK for x in c.calls)]
-        ok = bool(verify_cl) and bool(key_cl)
-
-        def filter_dests(cl):
-            out = set()
-            for b in tx.blocks:
-                t = b["term"]
-                if t["k"] == "call" and callee_matches(t, ["core::iter::traits::iterator::Iterator::filter"]):
-                    tys = " ".join(tx.locals.get(str(op_local(a)), "") for a in t["args"] if op_local(a) is not None)
-                    if any(re.search(r":%d:" % c.lines[0], tys) for c in cl):
-                        out.add(t["d"][0])
-            return out
         vals = agg_field_operands(tx, "libp2p_kad::record::Record", "value")
         ta = Taint(tx, through="all")
         inp = PL(tx, 1)  # the `transactions` parameter
         full = ta.closure(inp)
-        detail = {}
-        if ok and vals:
+        # key filter: same per-element rule as C04 (filter/retain closure or gated loop), reported under C07's name
+        okk, kept_key = per_element_key_check(R, F, tx, prefix="C07.tx.key")
+        # verify filter
+        formv, kept_ver = R.per_element_keep("C07.tx.verify", tx, lambda form: CallGuard([TX + "::verify"], ("true",), "transaction.verify()"),
+                                             "a transaction is kept only if its owner signature verifies")
+        ok = bool(vals) and formv in ("closure", "loop") and okk
+        detail = {"key_kept": len(kept_key), "verify_kept": len(kept_ver)}
+        if vals:
             vloc = op_local(vals[0][2])
             detail["input_reaches_stored_value"] = vloc in full
-            for nm, cl in (("verify", verify_cl), ("key", key_cl)):
-                stops = filter_dests(cl)
-                cut = ta.closure(inp, stop_at=stops)
-                detail["%s_filter_calls" % nm] = len(stops)
-                if not stops or vloc in cut:
+            for nm, stops in (("verify", kept_ver), ("key", kept_key)):
+                if not stops or vloc in ta.closure(inp, stop_at=stops):
                     ok = False
                     R.viol("C07.tx.filters", "bypass:%s" % nm, "a transaction can reach the stored record without passing the %s filter" % nm, tx, vals[0][1]["l"])
             if vloc not in full:
                 ok = False
                 R.viol("C07.tx.filters", "input-lost", "the validated input does not reach the stored record", tx, tx.lines[0])
-        else:
-            ok = False
-            R.viol("C07.tx.filters", "filters-missing", "key filter / verify filter closures not found", tx, tx.lines[0])
-        R.inst("C07.tx.filters", "K6 flows-to (cut)", "every stored transaction from the input passes the key filter and the verify filter", len(closures), ok, detail)
-        # verify closure returns verify()'s verdict
-        okv = False
-        for c in verify_cl:
-            prep(c)
-            for b in c.blocks:
-                t = b["term"]
-                if t["k"] == "call" and callee_matches(t, [TX + "::verify"]) and t["d"] == [0]:
-                    okv = True
-        if not okv:
-            R.viol("C07.tx.verify", "verify-verdict", "the verify filter does not return Transaction::verify()'s verdict", tx, tx.lines[0])
-        R.inst("C07.tx.verify", "K6 flows-to", "filter(|t| t.verify()) keeps exactly the verified transactions", len(verify_cl), okv)
+        R.inst("C07.tx.filters", "K6 flows-to (cut)", "every stored transaction from the input passes the key filter and the verify filter", len(vals), ok, detail)
         # union with the local set through a BTreeSet
         loc = call_results([PV + "get_local_transactions"])(tx)
         ext = [b for b in tx.blocks if b["term"]["k"] == "call" and (b["term"]["ncallee"] or "").endswith("BTreeSet<T, A> as core::iter::traits::collect::Extend<T>>::extend")]
